@@ -457,6 +457,9 @@ pub trait NodeVisitor<T: NodeProcessor> {
         processor.process_function_call(call);
 
         Self::visit_prefix_expression(call.mutate_prefix(), processor);
+        for r#type in call.iter_mut_method_type_instantiation() {
+            Self::visit_type(r#type, processor);
+        }
         Self::visit_arguments(call.mutate_arguments(), processor);
     }
 
